@@ -7,13 +7,14 @@ import (
 
 	"ariga.io/atlas/sql/migrate"
 	"ariga.io/atlas/sql/schema"
+	"verifharness/internal/hx"
 )
 
 // c16SchemaSingles: the scope check on the SMALLEST change sets - exactly one schema-level change, or one next
 // to a single table change - for every planner x requested qualifier x plan mode. A scoped plan never
 // creates, drops or alters a schema: the planner refuses (the only exception the code documents is a
 // ModifySchema planned IN PLACE, which is not a plan somebody else replays).
-func c16SchemaSingles(e *Env) {
+func c16SchemaSingles(e *Env, pool *hx.Pool) {
 	for _, dialect := range []string{"mysql", "postgres", "tidb"} {
 		pl, _ := c17Planner(dialect)
 		if pl == nil {
@@ -57,6 +58,31 @@ func c16SchemaSingles(e *Env) {
 						plan, err = pl.PlanChanges(context.Background(), "p", set.changes, func(o *migrate.PlanOptions) { o.SchemaQualifier = qp; o.Mode = migrate.PlanMode(mode) })
 					}()
 					id := fmt.Sprintf("%s qualifier=%s mode=%d change set %s", dialect, q, mode, set.name)
+					// the Lean scope check (Atlas.Qualify.checkScope; Props.C16.scope_rejects_add_drop /
+					// scope_rejects_deferred_modify) on the same kinds: the planner refuses exactly what it refuses
+					{
+						var abs []map[string]any
+						for _, ch := range set.changes {
+							switch ch.(type) {
+							case *schema.AddSchema:
+								abs = append(abs, map[string]any{"k": "add_schema"})
+							case *schema.DropSchema:
+								abs = append(abs, map[string]any{"k": "drop_schema"})
+							case *schema.ModifySchema:
+								abs = append(abs, map[string]any{"k": "modify_schema", "name": markerSchema})
+							default:
+								abs = append(abs, map[string]any{"k": "table", "name": markerSchema})
+							}
+						}
+						req := map[string]any{"op": "scope", "inplace": migrate.PlanMode(mode).Is(migrate.PlanModeInPlace), "changes": abs, "q": *qp}
+						var ans struct {
+							OK bool `json:"ok"`
+						}
+						if aerr := pool.AskInto(req, &ans); aerr == nil && ans.OK != (err == nil) && (err == nil || !strings.HasPrefix(err.Error(), "panic")) {
+							e.Res.Disagree()
+							e.Res.Violate("no-failing-input-found", "corr-scope-mismatch", fmt.Sprintf("%s: the planner returns err=%v, the Lean scope check accepts: %v", id, err, ans.OK), "correspondence Atlas.Qualify.checkScope (through the planners)", map[string]any{"case": id})
+						}
+					}
 					e.Res.Count("schema-single:"+id, true, "schema-single:"+dialect, "qual:"+q, fmt.Sprintf("mode:%d", mode))
 					rep := map[string]any{"case": id}
 					switch {
